@@ -15,13 +15,15 @@
 EXTENDS MsgLayout, Json, IOUtils, TLC
 
 Rec == ndJsonDeserialize(IOEnv.TRACE)
-VARIABLE l
-Init == l \in 1..Len(Rec)
-Next == UNCHANGED l
+(* The record of the line is kept in the state: TLC re-evaluates the definition `Rec` (i.e. parses
+   the whole file again) at every use, so `Rec[l]` per line would make validation quadratic. *)
+VARIABLES l, rec
+Init == LET R == Rec IN \E i \in 1..Len(R) : l = i /\ rec = R[i]
+Next == UNCHANGED <<l, rec>>
 
 Has(r, f) == f \in DOMAIN r
-Report(what, detail) == PrintT(<<"MISMATCH", ToJson([line |-> l, id |-> Rec[l].id, what |-> what, detail |-> detail])>>)
-Diag(what, detail)   == PrintT(<<"DIAG", ToJson([line |-> l, id |-> Rec[l].id, what |-> what, detail |-> detail])>>)
+Report(what, detail) == PrintT(<<"MISMATCH", ToJson([line |-> l, id |-> rec.id, what |-> what, detail |-> detail])>>)
+Diag(what, detail)   == PrintT(<<"DIAG", ToJson([line |-> l, id |-> rec.id, what |-> what, detail |-> detail])>>)
 
 (* Normal form of denoted values (as in WireCheck): dict arrays are maps, and a
    signature value of several complete types equals the struct around them. *)
@@ -153,7 +155,7 @@ CompatChecks(r) ==
                                           got |-> got, want |-> want0, ended |-> cn.ended])
 
 LineOk ==
-  LET r == Rec[l] IN
+  LET r == rec IN
   CASE r.ev = "Build" -> BuildChecks(r)
     [] r.ev = "Hostile" -> HostileChecks(r)
     [] r.ev = "Compat" -> CompatChecks(r)
